@@ -38,6 +38,10 @@ UT = "src/pyhf/infer/utils.py"
 FLAGS = ["return_tail_probs", "return_expected", "return_expected_set", "return_calculator"]
 
 
+# R2, R3, R5 know the helper structure of the pinned tree; R6 decides the same clauses on the composition (see Ctx.defer)
+DEFER = [(["C08.R2", "C08.R3", "C08.R5"], ["C08.R6"])]
+
+
 def run(ctx):
     repo = ctx.repo
     hyp = repo.func(INF, "hypotest")
@@ -383,6 +387,19 @@ def _hypotest_end_to_end(ctx, rid, repo):
         w.ext = None
         cfg = Obj("config", {"poi_index": c(0)})
         pdf = Obj("pdf", {"config": cfg})
+
+        def cfg_method(value):
+            def f(recv, a, k):
+                if isinstance(recv, Obj) and recv.name == "config":
+                    return value(recv)
+                from ..alg import NotHandled
+                raise NotHandled()
+            return f
+
+        w.base[".suggested_fixed"] = cfg_method(lambda r_: list(r_.attrs.get("suggested_fixed", [False, False])))
+        w.base[".suggested_init"] = cfg_method(lambda r_: [at("SI0"), at("SI1")])
+        w.base[".suggested_bounds"] = cfg_method(lambda r_: [(at("SL0"), at("SH0")), (at("SL1"), at("SH1"))])
+        w.ext = None
     except errs as e:
         ctx.unrecognised(rid, hyp, "hypotest end to end", f"world not buildable: {type(e).__name__}: {e}")
         return
@@ -450,3 +467,34 @@ def _hypotest_end_to_end(ctx, rid, repo):
             ctx.violated(rid, hyp, f"hypotest end to end [{lab}]", f"hypotest({stat}) composed with the asymptotic calculator does not give the asymptotic answer for this call: {probs[0]}", expected="observed / expected values of arXiv:1007.1727 from this call's statistic and Asimov statistic", found=probs[0])
         else:
             ctx.holds(rid, f"{INF}::hypotest -> AsymptoticCalculator [{lab}]", "statistic on data and on the Asimov data of this call; observed, tails, median and band by the asymptotic formulae")
+    # ---- refusals, through hypotest itself (whatever helper does the checking, with whatever signature)
+    nopoi = Obj("pdf", {"config": Obj("config", {"poi_index": None})})
+    fixed_in_model = Obj("pdf", {"config": Obj("config", {"poi_index": c(0), "suggested_fixed": [True, False]})})
+    for lab, model, fixed, want_exc in (
+        ("no POI defined", nopoi, [False, False], "UnspecifiedPOI"),
+        ("POI held fixed through the fixed_params argument", pdf, [True, False], "InvalidModel"),
+        ("POI held fixed through the fixed_params argument (tuple)", pdf, (True, False), "InvalidModel"),
+        ("POI fixed in the model, fixed_params left to the default", fixed_in_model, None, "InvalidModel"),
+        ("POI fixed in the model, released through fixed_params", fixed_in_model, [False, False], None),
+    ):
+        n_s = len(rec["stat"])
+        try:
+            for nm_ in list(region):
+                pass
+            w.call_func(hyp, [at("mu_r"), [at("dr_0"), at("dr_1")], model, Obj("init_r"), Obj("bounds_r"), fixed], {"test_stat": "q"})
+            if want_exc:
+                ctx.violated(rid, hyp, f"hypotest refusal [{lab}]", f"a hypothesis test is run although {lab.split(' (')[0].lower() if not lab.startswith('no POI') else 'no POI is defined'}: the profile likelihood ratio is meaningless and a number is returned", expected=f"raise {want_exc}", found="a result")
+            else:
+                ctx.holds(rid, f"{INF}::hypotest [{lab}]", "runs")
+        except RaisedInFragment as e:
+            got = e.exc_name.split(".")[-1]
+            if want_exc is None:
+                ctx.violated(rid, hyp, f"hypotest [{lab}]", f"refused with {got} although the POI floats in this call")
+            elif got == want_exc and len(rec["stat"]) == n_s:
+                ctx.holds(rid, f"{INF}::hypotest [{lab}]", f"refused with {want_exc} before anything is fitted")
+            elif got == want_exc:
+                ctx.violated(rid, hyp, f"hypotest refusal [{lab}]", f"{want_exc} is raised only after test statistics were already evaluated")
+            else:
+                ctx.violated(rid, hyp, f"hypotest refusal [{lab}]", f"raises {got}", expected=want_exc)
+        except errs as e:
+            ctx.unrecognised(rid, hyp, f"hypotest refusal [{lab}]", f"not interpretable: {type(e).__name__}: {e}")
